@@ -1218,6 +1218,29 @@ theorem keys_foldl_write (ws : List (Nat × Bytes)) :
       · exact Or.inl (by simp [e])
       · exact Or.inr (List.mem_filter.1 e).1
 
+theorem assoc_lookup (ws : List (Nat × Bytes)) (hnd : (ws.map (·.1)).Nodup) :
+    ∀ w ∈ ws, ws.lookup w.1 = some w.2 := by
+  induction ws with
+  | nil => intro w h; simp at h
+  | cons w0 ws ih =>
+    intro w hw
+    simp only [List.map_cons] at hnd
+    have hnd' := List.nodup_cons.1 hnd
+    rcases List.mem_cons.1 hw with e | e
+    · subst e; rw [List.lookup_cons]; simp
+    · have hne' : w.1 ≠ w0.1 := fun e' => hnd'.1 (e' ▸ List.mem_map_of_mem (f := (·.1)) e)
+      have : (w.1 == w0.1) = false := by simpa using hne'
+      rw [List.lookup_cons, this]
+      exact ih hnd'.2 w e
+
+theorem flatMap_congr' {α β : Type} (l : List α) (f g : α → List β) (h : ∀ a ∈ l, f a = g a) :
+    l.flatMap f = l.flatMap g := by
+  induction l with
+  | nil => rfl
+  | cons a l ih =>
+    simp only [List.flatMap_cons]
+    rw [h a List.mem_cons_self, ih (fun b hb => h b (List.mem_cons_of_mem _ hb))]
+
 end Sink
 
 end OdcGeo.C18
